@@ -31,6 +31,11 @@
 (*                   completion (repair); FALSE = pinned: stdin stays open *)
 (*                   until the main thread has taken the message -- which  *)
 (*                   it only does inside a read()                          *)
+(*   ClearOnErr      TRUE = a helper that reported an error is removed     *)
+(*                   from helper_set like one that reported EOF (repair);  *)
+(*                   FALSE = pinned: it stays, and a later read() waits    *)
+(*                   for a message nobody will send -- recv() on the       *)
+(*                   disconnected channel panics (unwrap / unreachable!)   *)
 (***************************************************************************)
 EXTENDS CommEnv
 
@@ -38,7 +43,7 @@ CONSTANTS
   Piped, Cap, K, ReadBuf,
   InLen, MaxOut, MaxErr, MaxChunk,
   Limits, TLims, MaxCalls, MaxNow, ShortIO,
-  DeadlineCheck, CloseBeforeSend
+  DeadlineCheck, CloseBeforeSend, ClearOnErr
 
 VARIABLES
   pcM,        \* main thread: "idle" | "leftover" | "loop" | "recv" | "ret_ok" | "ret_to" | "ret_err" | "dropped"
@@ -201,7 +206,8 @@ MRecv(s) ==
                           /\ outvec' = g[1] /\ errvec' = g[2] /\ leftover' = g[3]
                           /\ pcM' = IF g[4] THEN "loop" ELSE "ret_ok"
                           /\ UNCHANGED helperSet
-       [] OTHER -> /\ pcM' = "ret_err" /\ UNCHANGED <<helperSet, outvec, errvec, leftover>>
+       [] OTHER -> /\ pcM' = "ret_err" /\ UNCHANGED <<outvec, errvec, leftover>>
+                   /\ helperSet' = IF ClearOnErr THEN helperSet \ {s} ELSE helperSet
   /\ recvAfter' = IF Expired THEN recvAfter + 1 ELSE recvAfter
   /\ UNCHANGED <<envvars, hmsg, ncalls, hadTl, expiredSeen, rxAlive>>
 
@@ -211,9 +217,15 @@ MTimeout ==
   /\ pcM' = "ret_to"
   /\ UNCHANGED <<envvars, helperSet, leftover, outvec, errvec, hadTl, expiredSeen>> /\ MU
 
+\* every helper thread has ended (all senders dropped) while helper_set is not empty: recv() fails and the code panics
+MDisconnected ==
+  /\ pcM = "recv" /\ \A s \in Streams : hst[s] \in {"none", "done"}
+  /\ pcM' = "ret_panic"
+  /\ UNCHANGED <<envvars, helperSet, leftover, outvec, errvec, hadTl, expiredSeen>> /\ MU
+
 MRet ==
-  /\ pcM \in {"ret_ok", "ret_to", "ret_err"}
-  /\ Ret(CASE pcM = "ret_ok" -> "ok" [] pcM = "ret_to" -> "timedout" [] OTHER -> "oserr",
+  /\ pcM \in {"ret_ok", "ret_to", "ret_err", "ret_panic"}
+  /\ Ret(CASE pcM = "ret_ok" -> "ok" [] pcM = "ret_to" -> "timedout" [] pcM = "ret_panic" -> "panic" [] OTHER -> "oserr",
          "out" \in Piped, outvec, "err" \in Piped, errvec, TRUE)
   /\ pcM' = "idle" /\ ncalls' = ncalls + 1
   /\ UNCHANGED <<hst, hmsg, helperSet, leftover, outvec, errvec, hadTl, expiredSeen, rxAlive, recvAfter>>
@@ -224,7 +236,7 @@ MDrop ==
   /\ pcM' = "dropped" /\ rxAlive' = FALSE
   /\ UNCHANGED <<envvars, hst, hmsg, helperSet, leftover, outvec, errvec, ncalls, hadTl, expiredSeen, recvAfter>>
 
-MainNext == MCall \/ MLeftover \/ MLoop \/ (\E s \in Streams : MRecv(s)) \/ MTimeout \/ MRet \/ MDrop
+MainNext == MCall \/ MLeftover \/ MLoop \/ (\E s \in Streams : MRecv(s)) \/ MTimeout \/ MDisconnected \/ MRet \/ MDrop
 LibNext == MainNext \/ HelperNext
 
 Finished == pcM = "dropped" /\ ~cAlive /\ \A s \in Streams : hst[s] \in {"none", "done"}
